@@ -19,6 +19,7 @@
                                assertions: characterisation; the failing input is finding C17:assert:reextent-null-offset
 -/
 import MultiProofs.SerArchive
+import MultiProofs.SerWalk
 
 namespace Multi
 namespace C17
@@ -139,6 +140,132 @@ theorem codec_lawful (c : Codec τ α) (ci : ICodec τ) (hc : c.Lawful) (hci : c
       · rw [if_pos h] at hx; simp at hx; rw [hx]; exact hc.dflt_ok
       · rw [if_neg h] at hx; simp at hx
   law := fun prior x rest hp hx => roundtrip c ci hc hci D x prior hx hp rest
+
+/-! ### views -/
+
+theorem write_self (m : Mem α) (p : Int) : m.write p (m p) = m := by
+  funext q; simp only [Mem.write]; split
+  · rename_i h; rw [h]
+  · rfl
+
+theorem serializeAt_saving (c : Codec τ α) (m : Mem α) : ∀ (ps : List Int) (out : List τ),
+    View.serializeAt c (saving out) m ps = some (saving (out ++ encItems c (ps.map m)), m)
+  | [], out => by simp [View.serializeAt, encItems]
+  | p :: ps, out => by
+    simp only [View.serializeAt, Archive.amp, bind, Option.bind, write_self, serializeAt_saving c m ps, List.map_cons, encItems,
+      List.append_assoc]
+
+theorem serializeAt_loading (c : Codec τ α) (hc : c.Lawful) : ∀ (ps : List Int) (xs : List α) (m : Mem α),
+    ps.length = xs.length → ps.Nodup → (∀ p ∈ ps, c.ok (m p)) → (∀ x ∈ xs, c.ok x) → ∀ (rest : List τ),
+    ∃ m', View.serializeAt c (loading (encItems c xs ++ rest)) m ps = some (loading rest, m') ∧
+      (∀ p, p ∉ ps → m' p = m p) ∧ AllRel c.eqv (ps.map m') xs ∧ ∀ p ∈ ps, c.ok (m' p)
+  | [], [], m, _, _, _, _, rest => ⟨m, by simp [View.serializeAt, encItems], fun _ _ => rfl, trivial, by simp⟩
+  | [], _ :: _, _, h, _, _, _, _ => by simp at h
+  | _ :: _, [], _, h, _, _, _, _ => by simp at h
+  | p :: ps, x :: xs, m, hlen, hnd, hm, hx, rest => by
+    obtain ⟨y, hy, hyx, hyok⟩ := hc.law (m p) x (encItems c xs ++ rest) (hm p (by simp)) (hx x (by simp))
+    have hp : p ∉ ps := (List.nodup_cons.mp hnd).1
+    have hm1 : ∀ q ∈ ps, c.ok ((m.write p y) q) := by
+      intro q hq
+      have : q ≠ p := fun e => hp (e ▸ hq)
+      simp only [Mem.write, this, if_false]; exact hm q (List.mem_cons_of_mem _ hq)
+    obtain ⟨m', hm', hout, hrel, hok⟩ := serializeAt_loading c hc ps xs (m.write p y) (by simpa using hlen) (List.nodup_cons.mp hnd).2 hm1
+      (fun z hz => hx z (List.mem_cons_of_mem _ hz)) rest
+    have hmp : m' p = y := by rw [hout p hp]; simp [Mem.write]
+    refine ⟨m', ?_, ?_, ⟨by rw [hmp]; exact hyx, hrel⟩, ?_⟩
+    · simp only [View.serializeAt, Archive.amp, encItems, List.append_assoc, bind, Option.bind]
+      rw [hy]; simp only [Option.map]; exact hm'
+    · intro q hq
+      have h1 : q ≠ p := fun e => hq (e ▸ List.mem_cons_self)
+      have h2 : q ∉ ps := fun h => hq (List.mem_cons_of_mem _ h)
+      rw [hout q h2]; simp [Mem.write, h1]
+    · intro q hq
+      rcases List.mem_cons.mp hq with h | h
+      · rw [h, hmp]; exact hyok
+      · exact hok q h
+
+/-- the addresses of the elements of `v` in canonical order -/
+def canonAddrs (v : View) : List Int := (boxIndices v.exts).map v.addr
+
+/-- **C17, views (saving).**  A view (of any dimensionality, through either `serialize` overload) saves exactly its own
+    elements `v[idx]`, `idx` running over the view's index box in canonical order — no other token — and saving does not
+    change the memory. -/
+theorem view_saves_canonical (c : Codec τ α) (k : ViewKind) (v : View) (hwf : v.lay.WF) (m : Mem α) (out : List τ) :
+    v.serialize c k (saving out) m =
+      some (saving (out ++ encItems c ((boxIndices v.exts).map fun idx => m (v.addr idx))), m) ∧
+    v.save c k m = some (encItems c ((boxIndices v.exts).map fun idx => m (v.addr idx))) := by
+  have hps : v.serialAddrs k = some (canonAddrs v) := by rw [serialAddrs_canonical v hwf k, canonAddrs, canon_addrs v hwf]
+  have h1 : ∀ out, v.serialize c k (saving out) m =
+      some (saving (out ++ encItems c ((boxIndices v.exts).map fun idx => m (v.addr idx))), m) := by
+    intro out
+    simp only [View.serialize, hps, bind, Option.bind, serializeAt_saving, canonAddrs, List.map_map]
+    rfl
+  exact ⟨h1 out, by simp [View.save, h1]⟩
+
+/-- **C17, views (loading).**  Loading `N = num_elements` values into a view whose elements are pairwise distinct
+    storage locations consumes exactly their tokens, stores the k-th value in the k-th element (canonical order), and
+    leaves every address that is not an element of the view unchanged. -/
+theorem view_load_exact (c : Codec τ α) (hc : c.Lawful) (k : ViewKind) (v : View) (hwf : v.lay.WF) (m : Mem α)
+    (xs : List α) (hlen : xs.length = (boxIndices v.exts).length) (hinj : (canonAddrs v).Nodup)
+    (hm : ∀ p ∈ canonAddrs v, c.ok (m p)) (hx : ∀ x ∈ xs, c.ok x) (rest : List τ) :
+    ∃ m', v.load c k m (encItems c xs ++ rest) = some (m', rest) ∧
+      (∀ p, p ∉ canonAddrs v → m' p = m p) ∧
+      AllRel c.eqv ((boxIndices v.exts).map fun idx => m' (v.addr idx)) xs := by
+  have hps : v.serialAddrs k = some (canonAddrs v) := by rw [serialAddrs_canonical v hwf k, canonAddrs, canon_addrs v hwf]
+  obtain ⟨m', h1, h2, h3, _⟩ := serializeAt_loading c hc (canonAddrs v) xs m (by simp [canonAddrs, hlen]) hinj hm hx rest
+  refine ⟨m', ?_, h2, ?_⟩
+  · simp only [View.load, View.serialize, hps, bind, Option.bind, h1]
+  · simp only [canonAddrs, List.map_map] at h3; exact h3
+
+theorem allRel_map {β : Type} (r : α → α → Prop) (f g : β → α) : ∀ (l : List β), AllRel r (l.map f) (l.map g) ↔ ∀ x ∈ l, r (f x) (g x)
+  | [] => by simp [AllRel]
+  | x :: l => by simp [AllRel, allRel_map r f g l]
+
+theorem allRel_trans_eq {r : α → α → Prop} : ∀ {xs ys : List α}, AllRel r xs ys → ∀ {zs}, ys = zs → AllRel r xs zs
+  | _, _, h, _, rfl => h
+
+/-- Corollary: what a view `w` saved, loaded into a view `v` of equal extents, makes `v[idx] == w[idx]` at every index
+    tuple, and touches nothing but the elements of `v`. -/
+theorem view_roundtrip (c : Codec τ α) (hc : c.Lawful) (kw kv : ViewKind) (w v : View) (hw : w.lay.WF) (hv : v.lay.WF)
+    (hext : v.exts = w.exts) (mw m : Mem α) (hinj : (canonAddrs v).Nodup)
+    (hm : ∀ p ∈ canonAddrs v, c.ok (m p)) (hmw : ∀ p ∈ canonAddrs w, c.ok (mw p)) (rest : List τ) :
+    ∃ toks m', w.save c kw mw = some toks ∧ v.load c kv m (toks ++ rest) = some (m', rest) ∧
+      (∀ p, p ∉ canonAddrs v → m' p = m p) ∧
+      ∀ idx ∈ boxIndices v.exts, c.eqv (m' (v.addr idx)) (mw (w.addr idx)) := by
+  obtain ⟨_, hsave⟩ := view_saves_canonical c kw w hw mw []
+  have hx : ∀ x ∈ (boxIndices w.exts).map (fun idx => mw (w.addr idx)), c.ok x := by
+    intro x hx
+    simp only [List.mem_map] at hx
+    obtain ⟨idx, hidx, rfl⟩ := hx
+    exact hmw _ (by simp only [canonAddrs, List.mem_map]; exact ⟨idx, hidx, rfl⟩)
+  obtain ⟨m', h1, h2, h3⟩ := view_load_exact c hc kv v hv m _ (by simp [hext]) hinj hm hx rest
+  refine ⟨_, m', hsave, h1, h2, ?_⟩
+  rw [← hext] at h3
+  exact (allRel_map c.eqv _ _ _).mp h3
+
+/-! ### the assertion on the resize path of a build with assertions -/
+
+/-- The loading array is empty (null block) and the saved array has an extension lying entirely below zero:
+    `reextent` offsets the null pointer (`BOOST_MULTI_ASSERT(this->base_ || …)` fails for D ≥ 2).  This is the failing
+    input of finding C17:assert:reextent-null-offset; `roundtrip` above describes the build without assertions, in which
+    the offset pointer is never dereferenced. -/
+example : (Arr.ofExts [⟨0, 0⟩, ⟨0, 0⟩] ([] : List Int)).loadAsserts
+    (Arr.ofExts [⟨-3, -1⟩, ⟨0, 2⟩] [7, 7, 7, 7]).lay.exts = false := by decide
+
+/-- a saved array without elements whose inner extension does not start at 0: the new (null) block is offset -/
+example : (Arr.ofExts [⟨0, 2⟩, ⟨0, 2⟩] [1, 2, 3, 4]).loadAsserts
+    (Arr.ofExts [⟨0, 0⟩, ⟨1, 4⟩] ([] : List Int)).lay.exts = false := by decide
+
+/-- and a load that stays clear of it -/
+example : (Arr.ofExts [⟨0, 0⟩, ⟨0, 0⟩] ([] : List Int)).loadAsserts
+    (Arr.ofExts [⟨-3, 1⟩, ⟨0, 2⟩] [7, 7, 7, 7, 7, 7, 7, 7]).lay.exts = true := by decide
+
+/-- When the extensions compare equal nothing is resized, hence nothing asserted (partial characterisation: the general
+    condition is the executable predicate `Arr.loadAsserts` itself; not proved: that it is implied by "every loaded
+    extension has `last ≥ 0` and the loaded array is non-empty or zero-based"). -/
+theorem load_asserts_of_same_extensions_partial (b : Arr α) (exts' : List Ext) (h : Exts.neqv b.lay.exts exts' = false) :
+    b.loadAsserts exts' = true := by
+  simp [Arr.loadAsserts, h]
 
 /-! ### non-vacuity -/
 
